@@ -1792,7 +1792,7 @@ impl<'a> CompilerState<'a> {
                                             _ => {
                                                 return Err(self.syntax_error(
                                                     "Type too complex not supported",
-                                                    start,
+                                                    p.as_span().start(),
                                                 ))
                                             }
                                         }
@@ -2130,7 +2130,7 @@ impl<'a> CompilerState<'a> {
                                         _ => {
                                             return Err(self.syntax_error(
                                                 "Type too complex not supported",
-                                                start,
+                                                pair.as_span().start(),
                                             ))
                                         }
                                     }
